@@ -99,7 +99,7 @@ func TestC19(t *testing.T) {
 	if os.Getenv("VERIF_TIER") == "thorough" {
 		maxLen = 8 << 20
 	}
-	col := ev.Get("C19", "output", "1-6 jobs x 1-4 tasks running at the same time through the real TaskRunner; each task has 1-4 commands, each 'vhelper emit <spec>' (a generated sequence of stdout/stderr chunks with pauses; sizes 0 B to 300 KB, 8 MB in the thorough tier; partial last lines; arbitrary bytes or valid UTF-8) an interpreter builtin (echo/printf), a child that re-opens /dev/stdout or /dev/stderr by path (> and >>), emit commands whose streams the script merges (2>&1, 1>&2: the log must keep the order of the writes), and a command that leaves a background child behind which writes 0.3 s after the command's own process has ended (the runner's kill timeout is the default or 100 ms); every chunk starts with a (job,task,stream,#) marker; task names over letters/digits/_-. space and non-ASCII, in a quarter of the cases two names of one job that differ in a single character (space/underscore, case, accents, CJK); oracle: FileOutputStore.Reader(job,task,stream) equals the concatenation, in order, of that task's chunks for that stream over all its commands, GET /job/logs (with the job id in its canonical or another accepted spelling: upper case, braces, urn:uuid:, without hyphens) returns the same as strings (UTF-8 tasks), a task the job does not have and an unknown job give 404; in half of the cases a second runner is started from a store that knows the jobs but not their tasks' start (a crash between log write and state save) and must return the same logs; a sixth of the tasks end with a failing command (their output up to it must still be complete) and half of the cases run a second round of the same jobs on the same store; non-trivial = >=64 KiB on a stream or >=2 commands or both streams used, with >=2 tasks writing at once; distinct by (shape of the case)")
+	col := ev.Get("C19", "output", "1-6 jobs x 1-4 tasks running at the same time through the real TaskRunner; each task has 1-4 commands, each 'vhelper emit <spec>' (a generated sequence of stdout/stderr chunks with pauses; sizes 0 B to 300 KB, 8 MB in the thorough tier; partial last lines; arbitrary bytes or valid UTF-8) an interpreter builtin (echo/printf), a child that re-opens /dev/stdout or /dev/stderr by path (> and >>), emit commands whose streams the script merges (2>&1, 1>&2: the log must keep the order of the writes), and a command that leaves a background child behind which writes 0.3 s after the command's own process has ended (the runner's kill timeout is the default or 100 ms); every chunk starts with a (job,task,stream,#) marker; task names over letters/digits/_-. space and non-ASCII, in a quarter of the cases two names of one job that differ in a single character (space/underscore, case, accents, CJK); oracle: FileOutputStore.Reader(job,task,stream) equals the concatenation, in order, of that task's chunks for that stream over all its commands, GET /job/logs (with the job id in its canonical or another accepted spelling: upper case, braces, urn:uuid:, without hyphens) returns the same as strings (UTF-8 tasks), a task the job does not have and an unknown job give 404; in half of the cases a second runner is started from a store that knows the jobs but not their tasks' start (a crash between log write and state save) and must return the same logs; in a third of the cases one more job is canceled while its task, which has written to both streams, is still running (its log must hold what it had written); a sixth of the tasks end with a failing command (their output up to it must still be complete) and half of the cases run a second round of the same jobs on the same store; non-trivial = >=64 KiB on a stream or >=2 commands or both streams used, with >=2 tasks writing at once; distinct by (shape of the case)")
 	vh := helper(t)
 	rapid.Check(t, func(rt *rapid.T) {
 		nJobs := rapid.IntRange(1, 6).Draw(rt, "nJobs")
@@ -215,6 +215,26 @@ func TestC19(t *testing.T) {
 			}
 			defs.Pipelines[fmt.Sprintf("p%d", j)] = pd
 		}
+		// a job that is canceled while its task runs: what the task had written by then stays its log
+		canceledWriter := rapid.IntRange(0, 2).Draw(rt, "canceledWriter") == 0
+		victimMarker := "VFO" + strings.ReplaceAll(uuid.Must(uuid.NewV4()).String(), "-", "")[:16]
+		victimReady := filepath.Join(specDir, "victim-ready")
+		var victimOut, victimErr []byte
+		if canceledWriter {
+			victimOut = append([]byte("<victim/out>"), genPayload(rt, 70000, true)...)
+			victimErr = append([]byte("<victim/err>"), genPayload(rt, 70000, true)...)
+			spec := []specChunk{{1, base64.StdEncoding.EncodeToString(victimOut), 0}, {2, base64.StdEncoding.EncodeToString(victimErr), 0}}
+			b, _ := json.Marshal(spec)
+			sp := filepath.Join(specDir, "victim.json")
+			if err := os.WriteFile(sp, b, 0o666); err != nil {
+				rt.Fatalf("spec: %v", err)
+			}
+			defs.Pipelines["victim"] = definition.PipelineDef{Concurrency: 1, SourcePath: "gen", Tasks: map[string]definition.TaskDef{
+				"writer": {Script: []string{vh + " emit " + sp, vh + " hang " + victimMarker + " --ready " + victimReady + " --for 30s"}},
+				"later":  {Script: []string{"echo never"}, DependsOn: []string{"writer"}},
+			}}
+			defer killMarker(victimMarker)
+		}
 		// (the kill timeout plays no part in a task that ends by itself; with a short one, output that arrives
 		// later than that after a command's own process ended still belongs to the log)
 		kt := rapid.SampledFrom([]time.Duration{0, 0, 100 * time.Millisecond}).Draw(rt, "killTimeout")
@@ -244,6 +264,37 @@ func TestC19(t *testing.T) {
 			}
 			checkOutputs(rt, w, ids, expects, round)
 			lastIDs = ids
+		}
+		if canceledWriter {
+			job, err := w.pr.ScheduleAsync("victim", prunner.ScheduleOpts{})
+			if err != nil {
+				rt.Fatalf("schedule: %v", err)
+			}
+			deadline := time.Now().Add(20 * time.Second)
+			for readyCount(victimReady) == 0 {
+				if time.Now().After(deadline) {
+					rt.Fatalf("the task that is to be canceled does not come up")
+				}
+				time.Sleep(2 * time.Millisecond)
+			}
+			if err := w.pr.CancelJob(job.ID); err != nil {
+				rt.Fatalf("cancel: %v", err)
+			}
+			if v, ok := w.waitDone(job.ID, 30*time.Second); !ok || !v.Canceled {
+				rt.Fatalf("the canceled job is not reported canceled: %+v", v)
+			}
+			for _, st := range []struct {
+				name string
+				want []byte
+			}{{"stdout", victimOut}, {"stderr", victimErr}} {
+				got, err := w.readLog(job.ID, "writer", st.name)
+				if err != nil {
+					rt.Fatalf("[C19] a job canceled while its task ran: no %s of that task in the log store: %v", st.name, err)
+				}
+				if !bytes.Equal(got, st.want) {
+					rt.Fatalf("[C19] a job canceled while its task ran: %s of that task: the log store returns %d bytes, the task had written %d before it was stopped; first difference at offset %d", st.name, len(got), len(st.want), firstDiff(got, st.want))
+				}
+			}
 		}
 		// The state of the jobs is saved every few seconds, the logs are written at once: a process that dies in
 		// between leaves complete logs of tasks whose start was never saved. A runner started from such a store
@@ -299,7 +350,7 @@ func TestC19(t *testing.T) {
 		}
 		nontrivial := (big || multiCmd || bothStreams) && writers >= 2
 		col.Add(fmt.Sprintf("%d/%d/%v/%v/%v/%v", nJobs, writers, big, multiCmd, bothStreams, expectsShape(expects)), nontrivial,
-			map[string]int{"failing-task": btoi(anyFails), "second-round-after-failure": btoi(anyFails && rounds == 2), "two-rounds": btoi(rounds == 2), ">=64KiB-on-a-stream": btoi(big), ">=2-commands": btoi(multiCmd), "both-streams": btoi(bothStreams), "writers>=2": btoi(writers >= 2), "writers>=6": btoi(writers >= 6), "merged-streams": btoi(merged), "late-writer-after-command-ended": btoi(lateWriter), "short-kill-timeout": btoi(kt > 0), "lookalike-task-names": btoi(lookalike), "logs-after-restart": btoi(restarted)}, writers,
+			map[string]int{"failing-task": btoi(anyFails), "second-round-after-failure": btoi(anyFails && rounds == 2), "two-rounds": btoi(rounds == 2), ">=64KiB-on-a-stream": btoi(big), ">=2-commands": btoi(multiCmd), "both-streams": btoi(bothStreams), "writers>=2": btoi(writers >= 2), "writers>=6": btoi(writers >= 6), "merged-streams": btoi(merged), "late-writer-after-command-ended": btoi(lateWriter), "job-canceled-while-its-task-had-written": btoi(canceledWriter), "short-kill-timeout": btoi(kt > 0), "lookalike-task-names": btoi(lookalike), "logs-after-restart": btoi(restarted)}, writers,
 			map[string]interface{}{"jobs": nJobs, "tasks_writing": writers, "shape": expectsShape(expects)})
 	})
 }
